@@ -102,7 +102,7 @@ def client_cfg_of(c):
 
 
 CLIENT_BASE = dict(Callers="{1, 2}", MaxInFlight=1, Buf=1, Deadlines="{2}", MaxTime=2, PeerBudget=1,
-                   SinkMode='"always"', Cap=1, FaultOps="{}", AllowEof=False, AllowHandleDrop=False,
+                   SinkMode='"always"', Cap=1, FaultOps="{}", FaultKs="{1}", AllowEof=False, AllowHandleDrop=False,
                    AtomicPolls=True, FixF9=True, Mutant='"none"', ExportSched=False)
 
 
@@ -227,9 +227,14 @@ CLIENT_PROPS = {
         assumptions=CLIENT_ASSUME + ["this check covers the client dispatch; Requests/MaxRequests are checked by the server family",
                                      "a poll that performs more than 400 transport operations is treated as non-returning (Spin)"],
         models=[cmodel("coupled", ["M_C14"], SinkMode='"coupled"', AllowHandleDrop=True, thorough=dict(PeerBudget=2)),
-                cmodel("independent", ["M_C14"], SinkMode='"independent"', AllowHandleDrop=True, thorough=dict(PeerBudget=2))],
+                cmodel("independent", ["M_C14"], SinkMode='"independent"', AllowHandleDrop=True, thorough=dict(PeerBudget=2)),
+                # a readiness / flush failure at the first or the second use after arming (the second poll_ready of ensure_writeable)
+                cmodel("coupled-faults", ["M_C14", "M_C09"], SinkMode='"coupled"', FaultOps='{"ready", "flush"}', FaultKs="{1, 2}",
+                       PeerBudget=0, thorough=dict(PeerBudget=1))],
         families=[client_family([cexport("coupled", SinkMode='"coupled"', AllowHandleDrop=True, cap_quick=1000),
-                                 cexport("independent", SinkMode='"independent"', AllowHandleDrop=True, cap_quick=1000)], 2000, 40000)],
+                                 cexport("independent", SinkMode='"independent"', AllowHandleDrop=True, cap_quick=1000),
+                                 cexport("coupled-faults", SinkMode='"coupled"', FaultOps='{"ready", "flush"}', FaultKs="{1, 2}",
+                                         PeerBudget=0, cap_quick=1500)], 2000, 40000)],
         relevant=lambda e: e.get("cfg", {}).get("mode") in ("coupled", "independent"),
     ),
     "C18": dict(
@@ -596,6 +601,57 @@ PROPS["C07"] = dict(
 )
 
 
+
+
+# ------------------------------------------------------------------ bursts: scale the small-scope families cannot reach
+def burst_fixed(kinds):
+    """Harness-only scenarios with many calls at once (queues, budgets and tables that only overflow at scale)."""
+    def f(tier):
+        out = []
+        big = dict(maxInFlight=512, buf=512, mode="always", cap=1, open=True, credits=0, spin=20000)
+
+        def calls(n, dl):
+            return [{"a": "Call", "c": i, "dl": dl, "h": 0, "tr": 100 + i, "sampled": i % 2 == 0} for i in range(1, n + 1)]
+
+        def polls(n):
+            return [{"a": "Poll", "t": "c%d" % i} for i in range(1, n + 1)]
+
+        for n in ((40, 70, 150) if tier == "quick" else (33, 40, 65, 70, 130, 150, 300)):
+            if "abandon" in kinds:
+                # all transmitted, then all abandoned before the dispatch runs again: one Cancel each
+                out.append(dict(id="burst:abandon:%d" % n, cfg=big, steps=calls(n, 10000) + polls(n) + [{"a": "Poll", "t": "d"}]
+                                + [{"a": "Drop", "c": i} for i in range(1, n + 1)] + [{"a": "Settle"}]))
+                # half of them abandoned while still queued, the others after transmission
+                out.append(dict(id="burst:abandon-mixed:%d" % n, cfg=big, steps=calls(n, 10000) + polls(n)
+                                + [{"a": "Drop", "c": i} for i in range(1, n + 1, 2)] + [{"a": "Poll", "t": "d"}]
+                                + [{"a": "Drop", "c": i} for i in range(2, n + 1, 2)] + [{"a": "Settle"}]))
+            if "deadline" in kinds:
+                # a silent peer: every transmitted call must fail with DeadlineExceeded once the clock passes the deadline
+                out.append(dict(id="burst:deadline:%d" % n, cfg=big, steps=calls(n, 5) + polls(n)
+                                + [{"a": "Poll", "t": "d"}, {"a": "Tick", "d": 6}, {"a": "Settle"}]))
+                out.append(dict(id="burst:deadline-settle:%d" % n, cfg=big, steps=calls(n, 5) + polls(n)
+                                + [{"a": "Settle"}, {"a": "Tick", "d": 3}, {"a": "Settle"}, {"a": "Tick", "d": 3}, {"a": "Settle"}]))
+            if "reply" in kinds:
+                out.append(dict(id="burst:reply:%d" % n, cfg=big, steps=calls(n, 10000) + polls(n) + [{"a": "Poll", "t": "d"}]
+                                + [{"a": "Peer", "id": i} for i in range(n - 1, -1, -1)] + [{"a": "Settle"}]))
+            if "fault" in kinds:
+                # calls still queued when the transport fails: every one of them resolves with a connection error
+                out.append(dict(id="burst:fault:%d" % n, cfg=dict(big, mode="coupled", open=False), steps=calls(n, 10000) + polls(n)
+                                + [{"a": "Arm", "op": "next", "k": 1}, {"a": "Settle"}]))
+        return out
+    return f
+
+
+def burst_family(*kinds):
+    return dict(family="client", trace_module="Trace_Client", fixed=burst_fixed(set(kinds)), exports=[], random_quick=0, random_thorough=0,
+                tag="burst", opts={})
+
+
+PROPS["C02"]["families"].append(burst_family("reply", "deadline", "fault"))
+PROPS["C03"]["families"].append(burst_family("abandon"))
+PROPS["C05"]["families"].append(burst_family("deadline"))
+PROPS["C09"]["families"].append(burst_family("fault"))
+PROPS["C11"]["families"].append(burst_family("abandon", "reply", "deadline"))
 
 # ------------------------------------------------------------------ in-memory transports (Chan.tla): C15 (and panics for C16)
 def chan_to_sched(g, consts):
